@@ -276,7 +276,28 @@ CLASSIC = ['\\");x()#', '");x()#', '\\\\");x()#', "\\');x()#", "');x()#", '\\");
            'a.b', 'ctx.x', 'a b', 'a(b)', 'exit()', '\\\n', '\r', 'a\rb', '\x00', 'é', 'ａ', 'a[b', 'a]b', '`);x(`', '\\`);x(`']
 
 
+_DICT_HOT = None
+
+
+def dict_hot_codes():
+    """One-character dictionary codes whose expansion contains a character that matters inside a Python
+    literal (computed from the tree under test: it only feeds the generator, not the oracle)."""
+    global _DICT_HOT
+    if _DICT_HOT is None:
+        from vx.harness import vyxal
+
+        hot = set('"\\\n\'')
+        try:
+            _DICT_HOT = [c for c in vyxal.encoding.compression if hot & set(vyxal.helpers.uncompress_dict(c + "!"))]
+        except Exception:  # noqa: BLE001
+            _DICT_HOT = []
+    return _DICT_HOT
+
+
 def _payload_iter(maxlen):
+    for code in dict_hot_codes():
+        for suffix in ("", ");x()#", ");exit()#", '+str(ctx)+"', "!", " ", ");x()#" + code):
+            yield code + suffix
     for L in range(0, maxlen + 1):
         for tup in itertools.product(ALPHABET, repeat=L):
             yield "".join(tup)
